@@ -148,9 +148,7 @@ func decodeContentParameter(param *openapi3.Parameter, input *RequestValidationI
 	}
 
 	if !found {
-		if param.Required {
-			err = fmt.Errorf("parameter %q is required, but missing", param.Name)
-		}
+		// ValidateParameter reports a missing required parameter with ErrInvalidRequired
 		return
 	}
 
